@@ -1,7 +1,7 @@
 (* C11 — lemmas: stacks of wrappers of any depth over the in-memory provider. *)
 From Coq Require Import List NArith ZArith Bool Lia.
 Import ListNotations.
-From VF Require Import C11.Model C11.Proofs C11.ProofsB C11.ProofsF C11.Corr.
+From VF Require Import C11.Model C11.Proofs C11.ProofsB C11.ProofsF C11.ProofsR C11.Corr.
 Local Open Scope N_scope.
 
 Fixpoint mem_stack (s : stack) : bool :=
@@ -13,6 +13,8 @@ Fixpoint mem_stack (s : stack) : bool :=
 
 Lemma wf_op_batch q : forallb wf_bop q = true -> wf_op (Batch q) = true.
 Proof. intros H; exact H. Qed.
+Lemma put_wf_bop k v t : wf_op (Put k v t) = true -> valid_put k v t = true -> wf_bop (k, v, t) = true.
+Proof. intros _ Ev. destruct (valid_put_wf k v t Ev) as [_ Ht]. unfold wf_bop. cbn in *. rewrite Ht. reflexivity. Qed.
 
 (* the relation of a stack, built by recursion on the stack *)
 Fixpoint stack_rel (s : stack) : St (prov_of s) -> store -> Prop :=
@@ -20,7 +22,7 @@ Fixpoint stack_rel (s : stack) : St (prov_of s) -> store -> Prop :=
   | SMem => eq
   | SLevel => fun _ _ => False
   | SCached s' => cached_rel (stack_rel s')
-  | SBatched l s' => batched_rel l (stack_rel s')
+  | SBatched l s' => batched_rel wf_bop l (stack_rel s')
   | SFmt f s' => fmt_rel (fmt_of f) (prov_of s') (stack_rel s')
   | SFmtR _ s' => fun _ _ => False
   end.
@@ -30,7 +32,7 @@ Proof.
   induction s as [| |s' IH|l s' IH|f s' IH|f s' IH]; intros H; cbn in H; try discriminate.
   - apply mem_sim.
   - cbn [prov_of stack_rel]. apply cached_sim; [auto|reflexivity|apply IH; assumption].
-  - cbn [prov_of stack_rel]. apply batched_sim; [exact wf_op_batch|apply IH; assumption|auto|reflexivity|reflexivity].
+  - cbn [prov_of stack_rel]. apply batched_sim; [exact wf_op_batch|apply IH; assumption|exact put_wf_bop|reflexivity|auto|reflexivity|reflexivity].
 Qed.
 
 Lemma stack_rel_init s : mem_stack s = true -> stack_rel s (init (prov_of s)) [].
@@ -50,7 +52,7 @@ Proof.
   - destruct x as [m c]. destruct Hr as [H1 [H2 H3]]. cbn [rewrap fst snd] in *.
     split; [apply IH; assumption|]. split; [apply cache_ok_nil|assumption].
   - cbn [rewrap]. pose proof (stack_sim s' H) as HS.
-    destruct (bflush_rel wf_op false l (prov_of s') (stack_rel s') wf_op_batch HS x a Hr) as [_ [_ [_ H4]]].
+    destruct (bflush_rel wf_op wf_bop false l (prov_of s') (stack_rel s') wf_op_batch HS x a Hr) as [_ [_ [_ H4]]].
     apply batched_rel_fresh. apply IH; assumption.
 Qed.
 
@@ -69,12 +71,17 @@ Proof. unfold wf1_op. intros H. apply andb_prop in H as [H _]. exact H. Qed.
 Lemma wf1_op_batch q : forallb wf_bop q = true -> wf1_op (Batch q) = true.
 Proof. intros H. unfold wf1_op. cbn. rewrite H. reflexivity. Qed.
 
+Lemma put_wf_bop1 k v t : wf1_op (Put k v t) = true -> valid_put k v t = true -> wf_bop (k, v, t) = true.
+Proof. intros _. apply put_wf_bop. reflexivity. Qed.
+Lemma wf1_batch_inv b : wf1_op (Batch b) = true -> forallb wf_bop b = true.
+Proof. intros H. apply wf1_wf in H. exact H. Qed.
+
 Lemma plain_stack_sim s : plain_stack s = true -> sim wf1_op false (prov_of s) (stack_rel s).
 Proof.
   induction s as [| |s' IH|l s' IH|f s' IH|f s' IH]; intros H; cbn in H; try discriminate.
   - apply mem_sim.
   - cbn [prov_of stack_rel]. apply cached_sim; [exact wf1_wf|reflexivity|apply IH; assumption].
-  - cbn [prov_of stack_rel]. apply batched_sim; [exact wf1_op_batch|apply IH; assumption|exact wf1_wf|reflexivity|reflexivity].
+  - cbn [prov_of stack_rel]. apply batched_sim; [exact wf1_op_batch|apply IH; assumption|exact put_wf_bop1|reflexivity|exact wf1_batch_inv|reflexivity|reflexivity].
   - cbn [prov_of stack_rel]. apply formatted_det_sim; [apply fmt_of_ok|apply IH; assumption].
 Qed.
 
@@ -94,7 +101,64 @@ Proof.
   - destruct x as [m c]. destruct Hr as [H1 [H2 H3]]. cbn [rewrap fst snd] in *.
     split; [apply IH; assumption|]. split; [apply cache_ok_nil|assumption].
   - cbn [rewrap]. pose proof (plain_stack_sim s' H) as HS.
-    destruct (bflush_rel wf1_op false l (prov_of s') (stack_rel s') wf1_op_batch HS x a Hr) as [_ [_ [_ H4]]].
+    destruct (bflush_rel wf1_op wf_bop false l (prov_of s') (stack_rel s') wf1_op_batch HS x a Hr) as [_ [_ [_ H4]]].
     apply batched_rel_fresh. apply IH; assumption.
   - cbn [rewrap stack_rel] in *. unfold fmt_rel in *. apply IH; assumption.
+Qed.
+
+(* ---------- stacks with ONE random-key formatting layer: caching/batching layers above it, a plain stack below ---------- *)
+Fixpoint rand_stack (s : stack) : bool :=
+  match s with
+  | SFmtR _ s' => plain_stack s'
+  | SCached s' | SBatched _ s' => rand_stack s'
+  | _ => false
+  end.
+
+Definition gbk (b : bop) : bool := wf_bop b && user_tags (snd b).
+
+Fixpoint rstack_rel (s : stack) : St (prov_of s) -> store -> Prop :=
+  match s return St (prov_of s) -> store -> Prop with
+  | SFmtR f s' => rand_rel (fmt_of f) (prov_of s') (stack_rel s')
+  | SCached s' => cached_rel (rstack_rel s')
+  | SBatched l s' => batched_rel gbk l (rstack_rel s')
+  | _ => fun _ _ => False
+  end.
+
+Lemma wfk_wf o : wfk_op o = true -> wf_op o = true.
+Proof. intros H. apply wf1_wf. unfold wfk_op in H. apply andb_prop in H as [H _]. exact H. Qed.
+Lemma forallb_gbk q : forallb gbk q = true <-> forallb wf_bop q = true /\ forallb (fun x : bop => user_tags (snd x)) q = true.
+Proof. induction q as [|x r IH]; cbn; [tauto|]. unfold gbk at 1. rewrite !andb_true_iff, IH. tauto. Qed.
+Lemma wfk_op_batch q : forallb gbk q = true -> wfk_op (Batch q) = true.
+Proof. intros H. apply forallb_gbk in H as [H1 H2]. unfold wfk_op, wf1_op. cbn. rewrite H1, H2. reflexivity. Qed.
+Lemma wfk_batch_inv b : wfk_op (Batch b) = true -> forallb gbk b = true.
+Proof. unfold wfk_op, wf1_op. cbn. rewrite andb_true_r. intros H. apply andb_prop in H. apply forallb_gbk. exact H. Qed.
+Lemma put_gbk k v t : wfk_op (Put k v t) = true -> valid_put k v t = true -> gbk (k, v, t) = true.
+Proof. intros H Ev. unfold gbk. rewrite (put_wf_bop k v t eq_refl Ev). unfold wfk_op in H. apply andb_prop in H as [_ H]. exact H. Qed.
+
+Lemma rand_stack_sim s : rand_stack s = true -> sim wfk_op false (prov_of s) (rstack_rel s).
+Proof.
+  induction s as [| |s' IH|l s' IH|f s' IH|f s' IH]; intros H; cbn in H; try discriminate.
+  - cbn [prov_of rstack_rel]. apply cached_sim; [exact wfk_wf|reflexivity|apply IH; assumption].
+  - cbn [prov_of rstack_rel]. apply batched_sim; [exact wfk_op_batch|apply IH; assumption|exact put_gbk|reflexivity|exact wfk_batch_inv|reflexivity|reflexivity].
+  - cbn [prov_of rstack_rel]. apply formatted_rand_sim; [apply fmt_of_ok|apply plain_stack_sim; assumption].
+Qed.
+
+Lemma rand_stack_rel_init s : rand_stack s = true -> rstack_rel s (init (prov_of s)) [].
+Proof.
+  induction s as [| |s' IH|l s' IH|f s' IH|f s' IH]; intros H; cbn in H; try discriminate.
+  - cbn. split; [apply IH; assumption|]. split; [apply cache_ok_nil|apply wf_store_nil].
+  - cbn. apply batched_rel_fresh. apply IH; assumption.
+  - cbn [prov_of rstack_rel]. apply rand_rel_init. apply plain_stack_rel_init; assumption.
+Qed.
+
+Lemma rand_stack_rel_rewrap s : rand_stack s = true -> forall x a, rstack_rel s x a -> rstack_rel s (rewrap s x) a.
+Proof.
+  induction s as [| |s' IH|l s' IH|f s' IH|f s' IH]; intros H x a Hr; cbn in H; try discriminate.
+  - destruct x as [m c]. destruct Hr as [H1 [H2 H3]]. cbn [rewrap fst snd] in *.
+    split; [apply IH; assumption|]. split; [apply cache_ok_nil|assumption].
+  - cbn [rewrap]. pose proof (rand_stack_sim s' H) as HS.
+    destruct (bflush_rel wfk_op gbk false l (prov_of s') (rstack_rel s') wfk_op_batch HS x a Hr) as [_ [_ [_ H4]]].
+    apply batched_rel_fresh. apply IH; assumption.
+  - cbn [rewrap rstack_rel] in *. destruct Hr as [jl [H1 [H2 H3]]]. exists jl. cbn [fst snd] in *.
+    split; [apply plain_stack_rel_rewrap; assumption|]. split; assumption.
 Qed.
